@@ -57,7 +57,7 @@ fn hash_ipv4_flow(ip_packet: &[u8], num_workers: usize) -> Option<usize> {
 
     // IPv4 header is variable length (IHL field)
     let ihl = (ip_packet[0] & 0x0F) as usize;
-    let ip_header_len = ihl.saturating_mul(4);
+    let ip_header_len = ihl.max(5).saturating_mul(4);
 
     if ip_packet.len() < ip_header_len.saturating_add(4) {
         // TCP header not fully present, discard
